@@ -365,6 +365,8 @@ def gen_case(rng):
             if w["kind"] == "glob" or rng.random() < 0.3:
                 t = rng.choice(DEEP_PATTERNS)
                 w.update(kind="glob", text=t, feat="deep-pattern=" + t)
+    if c.get("home") and any(w["kind"] == "glob" and w["text"].startswith("~") for w in c["words"]):
+        del c["home"]
     return c
 
 
